@@ -14,6 +14,8 @@ FEATURE_KINDS = [
     ('u3', 'U3', (2,)),      # fixed-width unicode column with a trailing dimension
     ('f16', np.float16, ()),
     ('zw', np.float32, (0,)),  # zero-width trailing dimension
+    ('i64x', np.int64, ()),    # 64-bit integers far beyond 2**53 (hashes, nanosecond timestamps), both signs, incl. the limits
+    ('u64x', np.uint64, ()),   # unsigned 64-bit values above 2**63
 ]
 
 
@@ -33,6 +35,13 @@ def make_column(rng, kind, n, offset=0):
       word = ''.join(chr(97 + int(c)) for c in rng.randint(0, 26, size=rng.randint(1, 4)))
       flat[i] = word.encode() if dtype.startswith('S') else word
     return col
+  if name in ('i64x', 'u64x'):
+    lo, hi = (-2**63, 2**63 - 1) if name == 'i64x' else (2**63, 2**64 - 1)
+    vals = [int(lo + (hi - lo) * rng.rand()) | 1 for _ in range(int(np.prod(shape)))]
+    for j in range(len(vals)):
+      if rng.rand() < 0.15:
+        vals[j] = [lo, hi, hi - 1, lo + 1][rng.randint(4)] if name == 'i64x' else [hi, hi - 1, 2**63 + 1][rng.randint(3)]
+    return np.array(vals, dtype=dtype).reshape(shape)
   if dtype == np.bool_:
     return np.ones(shape, dtype=np.bool_) if rng.rand() < 0.5 else (rng.rand(*shape) < 0.7)
   if np.issubdtype(dtype, np.integer):
